@@ -81,8 +81,11 @@ static void on_point(int, const void *) {
     long lim = bufsz + 3 * CONT + (long)g_maxobj;
     if (sum > lim)
         vx::inv_fail("decoded containers held: " + std::to_string(sum) + " bytes > buffer+3*container+largest object = " + std::to_string(lim));
-    if (!f->m_readWriteQueue.m_abort && qs > QCAP)
-        vx::inv_fail("object queue holds " + std::to_string(qs) + " > capacity " + std::to_string(QCAP));
+    /* after abort() (close of a read session) the decoder may still hand over the object it was working on */
+    long qlim = QCAP + (f->m_readWriteQueue.m_abort ? 2 : 0);
+    if (qs > qlim)
+        vx::inv_fail("object queue holds " + std::to_string(qs) + " objects, capacity " + std::to_string(QCAP) +
+                     (f->m_readWriteQueue.m_abort ? " (after abort: capacity + 2 tolerated)" : ""));
 }
 
 struct FileGuard {
